@@ -152,53 +152,58 @@ def _producers(I, atom_key):
 
 
 def whitelist(cfg, crate, body, I, rep, key):
-    # the match over `ext`
-    ms = [n for n in common.hir_walk(body["hir"]) if n["k"] == "Match" and any("ParsedExtension::" in (a["pat"].get("ctor_of") or a["pat"].get("def") or "") for a in n["arms"])]
-    rep.ob("C06.whitelist", key + "|match", len(ms) == 1, "one match over the requested extensions", found=len(ms))
-    if len(ms) != 1:
-        return
-    m = ms[0]
-    arms = {}
-    default = None
-    for a in m["arms"]:
-        p = a["pat"]
-        d = p.get("ctor_of") or p.get("def")
-        if p["k"] == "Wild":
-            default = a
-        elif d:
-            arms[d.split("::")[-1]] = a
-    rep.ob("C06.whitelist", key + "|accepted-set", set(arms) == {"KeyUsage", "SubjectAlternativeName", "ExtendedKeyUsage"}, "exactly key usage, subject alternative name and extended key usage are accepted", found=sorted(arms))
-    okd = default is not None and default["body"]["k"] == "Ret" and "UnsupportedExtension" in str(default["body"])
-    rep.ob("C06.whitelist", key + "|default-errors", okd, "any other requested extension is refused with Err(UnsupportedExtension)", sp=default.get("sp") if default else None)
-    # what each arm stores
-    def stores(arm):
+    """Semantic form (from the interpreter's logs): which requested-extension variants lead to which parameter updates,
+    and which lead to a refusal."""
+    def ext_variants(cond, positive=True):
         out = set()
-        for n in common.hir_walk(arm["body"]):
-            if n["k"] == "Assign":
-                l = n["l"]
-                if l["k"] == "Field":
-                    out.add(l["name"])
-            if n["k"] == "MethodCall":
-                r = n["recv"]
-                if n["name"] == "push" and r["k"] == "Field":
-                    out.add(r["name"])
-                if n["name"] == "insert_extended_key_usage":
-                    out.add("extended_key_usages")
+        for a in F.atoms(cond):
+            if a[0] == "variant" and "requested_extensions" in a[1]:
+                asg = {b: (b == a) for b in F.atoms(cond)}
+                if F.evalf(cond, asg) or True:
+                    out.add(a[2])
         return out
+
+    def pos_variant(cond):
+        """the ParsedExtension variant(s) this path is specific to: atoms implied by the path condition"""
+        vs = []
+        for a in F.atoms(cond):
+            if a[0] == "variant" and "requested_extensions" in a[1] and not F.counterexamples(cond, ("atom", a), "implies"):
+                vs.append(a[2])
+        return vs
+    stores = {}
+    for tgt, kind, payload, n, f, cond in I.muts:
+        vs = pos_variant(cond)
+        if len(vs) != 1:
+            continue
+        fld = None
+        if kind == "assign" and payload and isinstance(payload[0], str) and payload[0].startswith("."):
+            fld = payload[0][1:]
+        elif kind.endswith("insert_extended_key_usage"):
+            fld = "extended_key_usages"
+        elif kind.endswith("Vec::push"):
+            fld = core(tgt).r().rsplit(".", 1)[-1]
+        if fld:
+            stores.setdefault(vs[0], set()).add(fld)
     want = {"KeyUsage": {"key_usages"}, "SubjectAlternativeName": {"subject_alt_names"}, "ExtendedKeyUsage": {"extended_key_usages"}}
+    rep.ob("C06.whitelist", key + "|accepted-set", set(stores) == set(want), "exactly key usage, subject alternative name and extended key usage are accepted", expected=sorted(want), found=sorted(stores))
     for k, w in want.items():
-        if k in arms:
-            got = stores(arms[k])
-            rep.ob("C06.whitelist", key + "|arm|" + k, got == w, "the %s arm stores into the like-named parameter and nothing else" % k, expected=sorted(w), found=sorted(got), sp=arms[k].get("sp"))
-    if "ExtendedKeyUsage" in arms:
-        other = [n for n in common.hir_walk(arms["ExtendedKeyUsage"]["body"]) if n["k"] == "If" and "other" in str(n["c"]) and "UnsupportedExtension" in str(n["t"])]
-        rep.ob("C06.whitelist", key + "|eku-other-refused", len(other) == 1, "extended key usages rcgen cannot carry over (eku.other) are refused")
-        import c07
-        pairs = c07.eku_pairs({"hir": arms["ExtendedKeyUsage"]["body"]})
-        rep.ob("C06.whitelist", key + "|eku-flags", len(pairs) == 7, "all seven standard purposes are carried over", found=pairs)
-    if "KeyUsage" in arms:
-        rev = any((x.get("callee") or "").endswith("reverse_bits") for x in common.hir_walk(arms["KeyUsage"]["body"]))
-        rep.ob("C06.whitelist", key + "|ku-bit-order", rev, "key usage flags are bit-reversed before decoding")
+        rep.ob("C06.whitelist", key + "|arm|" + k, stores.get(k) == w, "a requested %s is stored into the like-named parameter and nothing else" % k, expected=sorted(w), found=sorted(stores.get(k, [])))
+    # refusals: any other variant, and unknown extended key usages
+    unsupported = [(c, v) for c, v, n, f in I.fails if (f == FN or f in I.inlined) and "UnsupportedExtension" in core(v).r()]
+    default = [c for c, v in unsupported if not pos_variant(c)]
+    ok_default = False
+    for c in default:
+        neg = {a[2] for a in F.atoms(c) if a[0] == "variant" and "requested_extensions" in a[1]}
+        if neg >= set(want):
+            ok_default = True
+    rep.ob("C06.whitelist", key + "|default-errors", ok_default, "any other requested extension is refused with Err(UnsupportedExtension)", found=[F.show(c)[-160:] for c in default])
+    other = [c for c, v in unsupported if pos_variant(c) == ["ExtendedKeyUsage"] and any(a[0] == "empty" and a[1].endswith(".other") for a in F.atoms(c))]
+    rep.ob("C06.whitelist", key + "|eku-other-refused", len(other) == 1, "extended key usages rcgen cannot carry over (eku.other) are refused", found=[F.show(c)[-120:] + " || pv=%s f=%s" % (pos_variant(c), ff) for c, v, ff in [(c, v, f) for c, v, n, f in I.fails if "UnsupportedExtension" in core(v).r()]])
+    pairs = common.eku_pairs_interp(I)
+    rep.ob("C06.whitelist", key + "|eku-flags", pairs == common.EKU_FLAGS, "all seven standard purposes are carried over to the like-named variant", expected=common.EKU_FLAGS, found=pairs)
+    kus = [p for t_, k_, p, n, f, c in I.muts if k_ == "assign" and p and p[0] == ".key_usages"]
+    rev = len(kus) == 1 and any(x.endswith("::reverse_bits") for x in calls_of(kus[0][1])) and any(x.endswith("KeyUsagePurpose::from_u16") for x in calls_of(kus[0][1]))
+    rep.ob("C06.whitelist", key + "|ku-bit-order", rev, "key usage flags are bit-reversed and decoded by from_u16", found=[core(p[1]).r()[:120] for p in kus])
 
 
 def constructors(cfg, crate, rep):
